@@ -25,7 +25,9 @@ import itertools
 from ..harness import Part
 
 PROPERTY_ID = "C13"
-RULE = ("grid: every ordered list of 1..2 distinct round counts from {0,1,2,3} x all 4 computational data states, distance 2, "
+RULE = ("Kernel and circuit are built from ONE description object in either order (kernel first / circuit first), the kernel "
+        "receiving either the description's own identifier lists or copies. " +
+        "grid: every ordered list of 1..2 distinct round counts from {0,1,2,3} x all 4 computational data states, distance 2, "
         "chain description (64 experiments, exhaustive for that grid) plus every single-count list [0]..[8] at distance 3 "
         "(thorough tier). sampled: Hypothesis-generated experiments = ordered list of 1..4 distinct counts from 0..6 (0 and 1 "
         "over-weighted) x distance 2..4 x computational data-qubit states x optional computational ancilla states x "
@@ -77,7 +79,8 @@ def _build(case):
 
 def _classes(case):
     r = case["rounds"]
-    return [f"d={case['distance']}", f"desc={case['desc']}", f"has0={0 in r}", f"has1={1 in r}", f"len={len(r)}",
+    return [f"order={case.get('order', 'circuit_first')}", f"own_lists={bool(case.get('own_lists'))}",
+            f"d={case['distance']}", f"desc={case['desc']}", f"has0={0 in r}", f"has1={1 in r}", f"len={len(r)}",
             f"refocus={case['refocus']}", f"ancilla_states={case.get('ancilla_states') is not None}",
             f"zero_first={r[0] == 0}", f"zero_last={r[-1] == 0}", f"max_count>=4={max(r) >= 4}",
             f"data_all_zero={set(case['data_states']) == {'0'}}"]
@@ -94,17 +97,34 @@ def body(case, ctx):
     ctx.case(case, nontrivial=len(rounds) >= 2 and (0 in rounds or 1 in rounds), classes=_classes(case))
 
     circuit = kernel = desc = None
-    with ctx.lib("building description and multi-round circuit"):
+    # The two encodings are built from ONE description object, in either order, and the kernel is handed either the
+    # description's own identifier lists or copies: neither construction may disturb the other.
+    kernel_first = case.get("order") == "kernel_first"
+    own_lists = bool(case.get("own_lists"))
+
+    def build_kernel():
+        data_ids = desc.data_qubit_ids if own_lists else list(desc.data_qubit_ids)
+        ancilla_ids = desc.ancilla_qubit_ids if own_lists else list(desc.ancilla_qubit_ids)
+        return RepetitionExperimentKernel(
+            rounds=list(rounds), heralded_initialization=True, qutrit_calibration_points=True,
+            involved_data_qubit_ids=data_ids, involved_ancilla_qubit_ids=ancilla_ids,
+            experiment_repetitions=1)
+
+    with ctx.lib("building description"):
         desc, init = _build(case)
+    if desc is None:
+        return
+    if kernel_first:
+        with ctx.lib("building RepetitionExperimentKernel"):
+            kernel = build_kernel()
+    with ctx.lib("building multi-round circuit"):
         circuit = construct_repetition_code_multi_round_circuit(qec_cycles=list(rounds), description=desc, initial_state=init)
     if circuit is None:
         return
     spans, cycle = None, None
     with ctx.lib("building RepetitionExperimentKernel"):
-        kernel = RepetitionExperimentKernel(
-            rounds=list(rounds), heralded_initialization=True, qutrit_calibration_points=True,
-            involved_data_qubit_ids=list(desc.data_qubit_ids), involved_ancilla_qubit_ids=list(desc.ancilla_qubit_ids),
-            experiment_repetitions=1)
+        if not kernel_first:
+            kernel = build_kernel()
         cycle = int(kernel.kernel_cycle_length)
         spans = {getattr(k, "nr_repeated_parities", None): (int(k.start_index), int(k.stop_index)) for k in kernel.indexing_kernels}
     if kernel is None or cycle is None or spans is None:
@@ -227,6 +247,8 @@ def _strat(max_count, max_len, max_d):
             "ancilla_states": draw(st.one_of(st.none(), st.none(), st.lists(bits, min_size=d - 1, max_size=d - 1).map("".join))),
             "desc": draw(st.sampled_from(["chain", "initial_state", "surface17"])),
             "refocus": draw(st.booleans()),
+            "order": draw(st.sampled_from(["circuit_first", "kernel_first"])),
+            "own_lists": draw(st.booleans()),
         }
         if case["desc"] == "surface17":
             case["offset"] = draw(st.integers(0, 9 - d))
@@ -248,7 +270,8 @@ def items_grid(tier):
         for rounds in itertools.permutations([0, 1, 2, 3], n):
             for states in ("00", "01", "10", "11"):
                 yield {"distance": 2, "rounds": list(rounds), "data_states": states, "ancilla_states": None,
-                       "desc": "chain", "refocus": True}
+                       "desc": "chain", "refocus": True,
+                       "order": "kernel_first" if states in ("01", "10") else "circuit_first", "own_lists": states in ("10", "11")}
     if tier == "thorough":
         for r in range(9):
             yield {"distance": 3, "rounds": [r], "data_states": "010", "ancilla_states": None, "desc": "chain", "refocus": True}
